@@ -1798,6 +1798,25 @@ pub fn g9_targeted(kind: Kind, level: usize, f: &mut dyn FnMut(&[u8])) {
                     f(s.as_bytes());
                 }
             }
+            // the last two digits of 16-digit (and 15-, 17-digit) sizes just below 2^64: every hex digit in
+            // either case behind a run of f / F / mixed (overflow guards are written per digit class)
+            const HEXD: &[u8] = b"0123456789abcdefABCDEF";
+            for run in [13usize, 14, 15] {
+                for style in 0..3 {
+                    let pre: Vec<u8> = (0..run).map(|i| match style { 0 => b'f', 1 => b'F', _ => if i % 2 == 0 { b'f' } else { b'F' } }).collect();
+                    for &x in HEXD {
+                        for &y in HEXD {
+                            for t in [&b"\r\n"[..], &b";x\r\n"[..]] {
+                                let mut b = pre.clone();
+                                b.push(x);
+                                b.push(y);
+                                b.extend_from_slice(t);
+                                f(&b);
+                            }
+                        }
+                    }
+                }
+            }
         }
         Kind::Hdr => {
             // OWS runs of 0..=40 before and after the value; 1..=70 headers per block
